@@ -17,29 +17,36 @@ CLAIMS = {
     "C01": C("Necessary structural conditions of nodal balance: the element types aggregated into the bus demand "
              "equal those whose results are summed back, with the same sign table; each contribution depends on "
              "power, scaling and in-service mask; ZIP voltage law has the same shape in the mismatch and in the "
-             "result writer; branch types built equal branch types reported.",
+             "result writer; branch types built equal branch types reported; accumulations into a bus vector with repeated "
+             "indices use an unbuffered/unique-index form; the ZIP split has the same sibling form for loads and "
+             "asymmetric loads; the result shortcut is guarded by the flag that makes it valid.",
              "ast table-agreement + dependence + monomial-shape analysis"),
     "C02": C("Monomial-shape abstract interpretation (base-power degree, physical unit, decimal scale, parallel "
              "degree) of every per-unit conversion and result formula of the documented element models; T/pi "
-             "clause by dependence. A mis-scaled factor, dropped /parallel or wrong base exponent is reported.",
+             "clause by dependence. A mis-scaled factor, dropped /parallel or wrong base exponent is reported; the "
+             "phase shift enters with the sign of the tapped side in every branch of the shift computation; no "
+             "binary operation in the branch builders has two identical operands (copy/paste contradiction lint).",
              "abstract interpretation (monomial-shape domain) over ast"),
     "C03": C("In every branch result writer pl/ql is the positive sum of exactly the terminal power columns (AC) "
-             "and zero-like (DC); slack power depends on demand and losses.",
+             "and zero-like (DC); slack power depends on demand and losses; slack power split over several slack "
+             "elements at one bus divides by the element count of that bus.",
              "ast def-use / dependence analysis of result writers"),
     "C04": C("Setpoint columns flow into the ppc columns that fix them and results read back the element's own "
              "row; ZIP and shunt laws have the documented voltage degree; the Q-limit loop pins a violating "
-             "generator at the limit it violated.",
+             "generator at the limit it violated; stepped shunts multiply power and step together.",
              "dependence + monomial-shape analysis"),
     "C05": C("Base-power homogeneity and parallel-count homogeneity of every ppc writer and result reader; every "
-             "ppc column that holds a bus number is re-mapped in _ppc2ppci; result writers index through lookups.",
+             "ppc column that holds a bus number is re-mapped in _ppc2ppci; result writers index through lookups; "
+             "bus fusing tests both ends of a switch.",
              "monomial-shape abstract interpretation + table agreement"),
     "C07": C("Element types giving connectivity in the power flow agree with those giving edges in the topology "
              "graph used by unsupplied_buses; slack definitions agree; NaN is written exactly for isolated buses "
-             "before results are read.",
+             "before results are read; every element type's in-service mask combines its own flag with its bus's; "
+             "isolated-node detection covers both numba and numpy siblings.",
              "table agreement + ordering (dominators) on ast"),
     "C08": C("Pairing of auxiliary-element acquire/release on every normal and exceptional path of every calculation "
              "entry point; no reachable function stores into a schema column of a user table or drops/adds rows "
-             "unless restored; no in-place write through a view of a user table.",
+             "unless restored (including the contingency outage flag); no in-place write through a view of a user table.",
              "call graph + statement CFG with exceptional edges (PAIR), effect analysis, alias/view analysis"),
     "C09": C("Typestate of the cached per-network state: on every path of every calculation entry point no cached key "
              "(net._options, _pd2ppc_lookups[...], _is_elements(_final), _ppc*, _isolated_buses ...) is read before it has "
@@ -49,7 +56,8 @@ CLAIMS = {
              "interprocedural must-definedness (typestate) walk with constant propagation + taint analysis on ast"),
     "C12": C("Writer/reader table agreement: every (element, variable) ConstControl marks recyclable is read by a "
              "builder that the raised flag re-runs; every variable accepted for batch reading is provided by "
-             "get_batch_outputs; stored Ybus/Sbus reused only when the corresponding flags are clear.",
+             "get_batch_outputs; stored Ybus/Sbus reused only when the corresponding flags are clear; a recycled run "
+             "re-runs the builders of every flagged table; a diverged run does not leave a ppc marked successful.",
              "literal-table extraction + transitive read-set analysis over the call graph"),
     "C13": C("Controllers ordered ascending by (level, order), in-service only; every control step is followed by an "
              "evaluation of the net before the loop test; loop bound and not-converged raise are complementary; tap "
@@ -58,16 +66,20 @@ CLAIMS = {
              "(sibling agreement of control_step and is_converged).",
              "ordering / guard / sibling cross-check on ast"),
     "C14": C("in_service restored in finally for every N-1 case; N-0 evaluation after the N-1 loop; min/max masks "
-             "exclude own outage and NaN; cause attribution is NaN-safe.",
+             "exclude own outage and NaN; cause attribution is NaN-safe; the N-1 limit column is read from the table "
+             "whose loading is compared.",
              "CFG pairing + dependence analysis"),
     "C15": C("Sibling agreement between the sequential and the parallel update function (same masks, own outage "
-             "excluded in both); results consumed in task order (no unordered map); workers write only to copies.",
+             "excluded in both, in-service mask applied in both); results consumed in task order (no unordered map); "
+             "workers write only to copies.",
              "sibling cross-check + effect analysis on ast"),
     "C16": C("Every declared OPF constraint column is read on the OPF conversion path into the matching ppc limit "
-             "column with the load-like inversion pair; paired fancy-index masks agree (MASKPAIR).",
+             "column with the load-like inversion pair; paired fancy-index masks agree (MASKPAIR); if/else limit "
+             "assignments cover both bounds; DC line limits are written on the side they constrain.",
              "dependence analysis + contradiction lint"),
     "C17": C("Sign parity of cost coefficients: the element sign may multiply odd-degree coefficients only; "
-             "res_cost flows from the objective of the same gencost.",
+             "res_cost flows from the objective of the same gencost; signs are aligned with the filtered cost rows; "
+             "polynomial coefficients are scaled per unit by degree.",
              "monomial-shape (sign parity) analysis"),
     "C18": C("Unit, decimal scale and base-power degree 0 of every closed-form short-circuit result (ikss, skss, ip, "
              "rk/xk) and of the short-circuit admittances; literal factors (1/sqrt3, 1/2, sqrt3, sqrt2; 2ph = sqrt3/2 of "
@@ -75,17 +87,20 @@ CLAIMS = {
              "of the inverse_y branches.",
              "monomial-shape abstract interpretation + literal-factor and interval evaluation of closed forms + sibling cross-check"),
     "C19": C("Every numpy/scipy attribute chain evaluated on the state-estimation path exists in the installed "
-             "library namespace (a missing name makes estimation fail for every input).",
-             "ast attribute-chain resolution against installed stub files",
+             "library namespace (a missing name makes estimation fail for every input); the ten measurement blocks of z, "
+             "covariance, index map, non-NaN masks, h(x) and Jacobian rows are the same kinds in the same order, each "
+             "selected with its own mask and the matching real/imag part.",
+             "ast attribute-chain resolution against installed stub files + sibling order/mask agreement",
              note="Trusted base: ast parser, the installed numpy/scipy .pyi/.py files as the namespace oracle. Decides API "
-                  "existence only, not the estimate."),
+                  "existence and block agreement only, not the estimate."),
     "C20": C("Writer/reader agreement of the serialisers: every metadata key an encoder emits is consumed by its "
              "decoder, every emitted class signature has a decoder, encryption is paired, Excel/SQLite column "
-             "coding sets agree.",
+             "coding sets agree; a stored std-type parameter takes precedence in the documented order.",
              "literal-table extraction and agreement on ast"),
     "C22": C("Foreign keys declared in network_schema are covered by the toolbox tables; every type code of a "
              "referencing table is handled by reindex_elements; every row drop in the toolbox is preceded by group "
-             "detach and followed by result/reference cascade; re-indexing covers result tables.",
+             "detach and followed by result/reference cascade; re-indexing covers result tables; element-type codes are "
+             "compared exactly and mapped to the table they name.",
              "schema-vs-toolbox table agreement + ordering on ast"),
     "C23": C("Only the replacement family is claimed: every parameter of an element created by a replace_* function of the "
              "toolbox (line<->impedance, ward/xward -> internal elements or ward, ext_grid<->gen, gen<->sgen, load/sgen/"
@@ -94,30 +109,35 @@ CLAIMS = {
              "dropping and fusing are not decided.",
              "monomial-shape abstract interpretation (rows of itertuples/iterrows as table rows, create_* inlined)"),
     "C24": C("Sibling agreement of single and batch creators: std-type keys consumed, columns written, existence and "
-             "index checks called, duplicate-cost predicate structure.",
+             "index checks called, duplicate-cost predicate structure incl. the power_type filter.",
              "sibling cross-check of literal tables on ast"),
     "C25": C("Electrical keys of the built-in standard-type libraries are consumed by the creators; change_std_type "
-             "iterates over the type's parameters; no caller mutates the dict returned by load_std_type.",
+             "iterates over the type's parameters and applies them unconditionally, replacing the std_type cell; list-valued "
+             "optional parameters are optional in both creators; no caller mutates the dict returned by load_std_type.",
              "table agreement + alias/mutation analysis"),
     "C26": C("Per edge-producing block of create_nxgraph: in_service dependence, switch mask dependence on closed/et, "
              "out-of-service bus removal, nogobuses/notravbuses handling; connected_components removes each "
-             "component from the work set.",
+             "component from the work set; multigraph distances take the minimum over parallel edges; each include_* "
+             "option gates the block of its own element type.",
              "dependence analysis on ast"),
     "C27": C("Cascade clauses: detach-before-drop in every drop function; reindexing rewrites group element_index; "
-             "group row removed exactly when member list becomes empty.",
+             "group row removed exactly when member list becomes empty; group cells are not mutated through aliases shared "
+             "between groups; index None checks precede use.",
              "ordering + dependence analysis on ast"),
     "C28": C("get_equivalent rebinds net to a deep copy before the first write and no reachable function writes "
              "to an object aliasing the caller's net.",
              "effect analysis with parameter aliasing over the call graph"),
     "C30": C("No module-level mutable escapes by reference into instance state that is mutated in place; each "
-             "diagnostic function that writes its parameter's tables restores them on every normally returning path.",
+             "diagnostic function that writes its parameter's tables (directly or through a callee) restores them on every "
+             "normally returning path; results are returned in fresh containers.",
              "shared-mutable escape analysis + CFG restore pairing"),
     "C31": C("A lookup built from a frame merged on (id, step) must be keyed on both keys; no in-place write through "
              "a view of net.trafo; written values depend on tap_pos and id_characteristic_table of the same rows.",
              "key-collapse dependence analysis + alias/view analysis"),
     "C34": C("Information-flow argument: 'was the argument passed' must be computed from information that differs "
              "between runpp(net) and runpp(net, algorithm='nr'); checks signature defaults, the passed-parameter "
-             "test and overrule list agreement.",
+             "test and overrule list agreement; the kwargs handed to the passed-parameter test are the caller's own; every "
+             "stored-option reader goes through the priority function.",
              "information-flow argument on signature/ast"),
 }
 
